@@ -235,6 +235,9 @@ func (t *bodyTr) exprKey(e ast.Expr) string {
 		if t.recvName != "" && x.Name == t.recvName {
 			return "recv"
 		}
+		if x.Name == "recv" {
+			return "«recv»" // some other identifier that happens to be called recv
+		}
 		return x.Name
 	case *ast.SelectorExpr:
 		return t.exprKey(x.X) + "." + x.Sel.Name
@@ -1443,7 +1446,7 @@ func (t *bodyTr) rangeStmt(x *ast.RangeStmt, sc bscope, ctx bctx, ind string, re
 	b.WriteString(pre)
 	fmt.Fprintf(&b, "%smatch Go.forRange (ρ := %s) %s %s (fun %s %s %s => (\n", ind, t.fnResTy, xs.Lean, tuple(vars), k, v, tuple(vars))
 	b.WriteString(strings.TrimRight(t.seq(x.Body.List, bsc.push(), lctx, ind+"    "), "\n") + ")) with\n")
-	fmt.Fprintf(&b, "%s| .ret r => %s\n", ind, ctx.retRaw("r"))
+	fmt.Fprintf(&b, "%s| .ret loopRet => %s\n", ind, ctx.retRaw("loopRet"))
 	fmt.Fprintf(&b, "%s| .fin %s => (\n", ind, tuple(vars))
 	b.WriteString(strings.TrimRight(rest(sc, ind+"  "), "\n") + ")\n")
 	return b.String()
@@ -1530,6 +1533,11 @@ func GenBody(spec *FnSpec) string {
 	}
 	if fd.Recv != nil && len(fd.Recv.List[0].Names) == 1 {
 		t.recvName = fd.Recv.List[0].Names[0].Name
+	}
+	// names the rendering itself uses: a Go local of that name would capture them
+	for _, w := range strings.Fields("none some decide not id Go Gen Chan Cb Netconf List Int Nat Bool UInt8 Bytes Option " +
+		"isInfix hasPrefix trimPrefix trimSuffix trimSpace splitLF joinLF loopRet") {
+		t.reserved[w] = true
 	}
 	for _, s := range spec.State {
 		t.reserved[s.Lean] = true
